@@ -225,6 +225,21 @@ func c13Commit(c *an.Ctx, rule string, fn *ssa.Function, what string, commit ssa
 }
 
 func runC13(c *an.Ctx) {
+	// ---- C13-R8: builder wiring of the components this property rests on
+	c.Floor("C13-R8", 25)
+	builderWiring(c, "C13-R8", map[string][]string{
+		"initFilterStorage|filter/filterstorage.ConfigRuleLists":       {"IndexURL", "IndexMaxSize", "MaxSize", "IndexRefreshTimeout", "IndexStaleness", "RefreshTimeout", "Staleness"},
+		"initFilterStorage|filter/filterstorage.ConfigBlockedServices": {"IndexURL", "IndexMaxSize", "IndexStaleness"},
+		"initFilterStorage|filter/filterstorage.Config":                nil,
+		"newSafeSearchConfig|filter/filterstorage.ConfigSafeSearch":    {"URL", "ID", "MaxSize", "RefreshTimeout", "Staleness"},
+		"initSafeBrowsing|filter/hashprefix.FilterConfig":              {"Staleness", "RefreshTimeout", "MaxSize"},
+		"initAdultBlocking|filter/hashprefix.FilterConfig":             {"Staleness", "RefreshTimeout", "MaxSize"},
+		"initNewRegDomains|filter/hashprefix.FilterConfig":             {"Staleness", "RefreshTimeout", "MaxSize"},
+		"initFilterStorage|agdservice.RefreshWorkerConfig":             nil,
+		"initSafeBrowsing|agdservice.RefreshWorkerConfig":              nil,
+		"initAdultBlocking|agdservice.RefreshWorkerConfig":             nil,
+		"initNewRegDomains|agdservice.RefreshWorkerConfig":             nil,
+	})
 	// ---- R7: the status check is exact; no silently truncating reader on a list's path
 	c.Floor("C13-R7", 2)
 	decide(c, "C13-R7", "agdhttp.CheckStatus", an.DecideCfg{
@@ -493,7 +508,7 @@ func runC13(c *an.Ctx) {
 
 	// ---- R1d: when the cache file counts as fresh
 	decide(c, "C13-R1", rf+"refreshFromFile", an.DecideCfg{
-		Dom: an.Domain{"open": an.Strs("ok", "notexist", "other"), "p1": an.Bools, "staterr": an.Bools, "fresh": an.Bools, "copyerr": an.Bools},
+		Dom:    an.Domain{"open": an.Strs("ok", "notexist", "other"), "p1": an.Bools, "staterr": an.Bools, "fresh": an.Bools, "copyerr": an.Bools},
 		Inline: func(f *ssa.Function) bool { return strings.HasPrefix(an.FnKey(f), rf+"refreshFromFile$") },
 		OnCall: func(it *an.Interp, name string, args []an.AV) (an.AV, bool) {
 			switch {
